@@ -346,10 +346,13 @@ where
         });
     }
 
-    assert!(
-        !commitment_cap.is_empty(),
-        "commitment cap must have at least one entry"
-    );
+    // A malformed proof can carry a cap of any length: that is an error, not a panic.
+    if commitment_cap.is_empty() || !commitment_cap.len().is_power_of_two() {
+        return Err(CircuitBuilderError::WrongBatchSize {
+            expected: commitment_cap.len().next_power_of_two().max(1),
+            got: commitment_cap.len(),
+        });
+    }
 
     // Derive cap_height from commitment size: cap has 2^cap_height entries
     let cap_height = if commitment_cap.len() == 1 {
@@ -359,6 +362,12 @@ where
     };
 
     let max_height_log = index_bits.len();
+    if cap_height > max_height_log {
+        return Err(CircuitBuilderError::WrongBatchSize {
+            expected: 1 << max_height_log,
+            got: commitment_cap.len(),
+        });
+    }
     let path_depth = max_height_log - cap_height;
 
     // Split index_bits into path bits (for Merkle traversal) and cap index bits
@@ -461,10 +470,13 @@ where
         });
     }
 
-    assert!(
-        !commitment_cap.is_empty(),
-        "commitment cap must have at least one entry"
-    );
+    // A malformed proof can carry a cap of any length: that is an error, not a panic.
+    if commitment_cap.is_empty() || !commitment_cap.len().is_power_of_two() {
+        return Err(CircuitBuilderError::WrongBatchSize {
+            expected: commitment_cap.len().next_power_of_two().max(1),
+            got: commitment_cap.len(),
+        });
+    }
 
     let cap_height = if commitment_cap.len() == 1 {
         0
@@ -473,6 +485,12 @@ where
     };
 
     let max_height_log = index_bits.len();
+    if cap_height > max_height_log {
+        return Err(CircuitBuilderError::WrongBatchSize {
+            expected: 1 << max_height_log,
+            got: commitment_cap.len(),
+        });
+    }
     let path_depth = max_height_log - cap_height;
     let path_bits = &index_bits[..path_depth];
     let cap_index_bits = &index_bits[path_depth..];
@@ -1095,10 +1113,13 @@ fn arity4_prepare<EF: Field>(
         });
     }
 
-    assert!(
-        !commitment_cap.is_empty(),
-        "commitment cap must have at least one entry"
-    );
+    // A malformed proof can carry a cap of any length: that is an error, not a panic.
+    if commitment_cap.is_empty() || !commitment_cap.len().is_power_of_two() {
+        return Err(CircuitBuilderError::WrongBatchSize {
+            expected: commitment_cap.len().next_power_of_two().max(1),
+            got: commitment_cap.len(),
+        });
+    }
 
     let mut heights_tallest_first = dimensions
         .iter()
